@@ -89,25 +89,20 @@ Proof.
         match goal with E : i_dl _ = Some _ |- _ => rewrite E in Hu end; lia.
 Qed.
 
+Lemma reach_inv' (c : nat) (P : st -> Prop) :
+  P (init c) -> (forall s l s1, reach c s -> P s -> step s l = Some s1 -> P s1) -> forall s, reach c s -> P s.
+Proof. intros H0 Hs s Hr. induction Hr; eauto. Qed.
+
 (* ---- C. every work item is in at most one place; overflow items were never written; one token per item ----------- *)
 Definition cnt (l : list nat) (id : nat) : nat := count_occ Nat.eq_dec l id.
-Definition hW (s : st) (id : nat) : nat := match wr s with WHold x => if Nat.eqb x id then 1%nat else 0%nat | _ => 0%nat end.
-Definition hR (s : st) (id : nat) : nat := match rd s with RHold x => if Nat.eqb x id then 1%nat else 0%nat | _ => 0%nat end.
+Definition hw (w : wstate) (id : nat) : nat := match w with WHold x => if Nat.eqb x id then 1%nat else 0%nat | _ => 0%nat end.
+Definition hr (r : rstate) (id : nat) : nat := match r with RHold x => if Nat.eqb x id then 1%nat else 0%nat | _ => 0%nat end.
 (* number of places (chW, the writer's hand, chR, the reader's hand) holding item id *)
-Definition infl (s : st) (id : nat) : nat := (cnt (chW s) id + hW s id + cnt (chR s) id + hR s id)%nat.
+Definition infl (s : st) (id : nat) : nat := (cnt (chW s) id + hw (wr s) id + cnt (chR s) id + hr (rd s) id)%nat.
 
 Definition waitish (p : pc) : Prop := match p with PWait | PRet RTimeout _ => True | _ => False end.
 Definition early (p : pc) : Prop := match p with PNone | PEnq | PSubst => True | _ => False end.
 Definition ret_overflow (p : pc) : Prop := match p with PRet ROverflow _ => True | _ => False end.
-
-Definition itemC (s : st) (id : nat) : Prop :=
-  let it := items s id in
-  (infl s id <= 1)%nat /\
-  ((1 <= infl s id)%nat -> i_done it = None /\ waitish (i_pc it)) /\
-  ((1 <= cnt (chW s) id)%nat -> i_sent it = false) /\
-  (early (i_pc it) -> i_sent it = false /\ i_done it = None) /\
-  ((i_done it = Some ROverflow \/ ret_overflow (i_pc it)) -> i_sent it = false) /\
-  (i_signals it <= 1) /\ (i_done it = None <-> i_signals it = 0).
 
 Lemma cnt_app l1 l2 id : cnt (l1 ++ l2) id = (cnt l1 id + cnt l2 id)%nat.
 Proof. apply count_occ_app. Qed.
@@ -116,15 +111,86 @@ Proof. unfold cnt. cbn. destruct (Nat.eq_dec x id), (Nat.eqb_spec x id); try con
 Lemma cnt_nil id : cnt [] id = 0%nat.
 Proof. reflexivity. Qed.
 
-Lemma invC c : forall s, reach c s -> forall id, itemC s id.
+(* C1: placement *)
+Definition itemC1 (s : st) (id : nat) : Prop :=
+  let it := items s id in
+  (infl s id <= 1)%nat /\
+  ((1 <= infl s id)%nat -> i_done it = None /\ waitish (i_pc it)) /\
+  (early (i_pc it) -> i_done it = None).
+
+Ltac prep HC j Hj :=
+  intros j; pose proof (HC j) as Hj; unfold infl in *; simp_st; use_eqs;
+  rewrite ?cnt_app, ?cnt_cons, ?cnt_nil in *; simp_st; cbn [hw hr] in *.
+Ltac fin :=
+  split_ids; simp_st; use_eqs;
+  try match goal with |- context [PRet ?r _] => is_var r; destruct r end;
+  cbn [waitish early ret_overflow hw hr] in *;
+  repeat match goal with H : _ /\ _ |- _ => destruct H end;
+  repeat match goal with
+         | H : (?a <= ?b)%nat -> _ |- _ =>
+             destruct (Compare_dec.le_lt_dec a b) as [?X|?X]; [specialize (H X)|clear H]
+         | H : _ /\ _ |- _ => destruct H
+         end;
+  repeat split; intros;
+  repeat match goal with
+         | H : ?a -> _ |- _ =>
+             match type of a with Prop => idtac end;
+             let X := fresh in assert (X : a) by (first [lia | exact I | assumption | congruence | left; assumption | right; assumption | left; congruence]); specialize (H X)
+         | H : _ /\ _ |- _ => destruct H
+         | H : _ \/ _ |- _ => destruct H
+         | H : _ <-> _ |- _ => destruct H
+         end;
+  cbn [waitish early ret_overflow] in *;
+  try lia; try (exfalso; lia); try congruence; try contradiction; try assumption; try exact I;
+  try (match goal with H1 : waitish ?p, H2 : early ?p |- _ =>
+         exfalso; clear - H1 H2; destruct p as [| | | |[] ?]; cbn in H1, H2; contradiction end);
+  try (match goal with H1 : waitish ?p, H2 : ret_overflow ?p |- _ =>
+         exfalso; clear - H1 H2; destruct p as [| | | |[] ?]; cbn in H1, H2; contradiction end).
+
+Lemma invC1 c : forall s, reach c s -> forall id, itemC1 s id.
 Proof.
-  apply (reach_inv c (fun s => forall id, itemC s id)).
-  - intros id. unfold itemC, infl, hW, hR. cbn. intuition (try lia; try congruence).
-  - intros s l s1 HC H. destruct l; step_cases H; unfold stopping in *; simp_st.
-    all: intros j; pose proof (HC j) as Hj; unfold itemC, infl, hW, hR in *; simp_st; use_eqs;
-         rewrite ?cnt_app, ?cnt_cons, ?cnt_nil in *; simp_st.
+  apply (reach_inv' c (fun s => forall id, itemC1 s id)).
+  - intros id. unfold itemC1, infl. cbn. intuition (try lia; try congruence).
+  - intros s l s1 Hr HC H. pose proof (invB c s Hr) as (HBn & _).
+    destruct l; step_cases H; unfold stopping in *; simp_st.
+    all: try (pose proof (HBn _ (le_n (nitems s))) as HB0).
+    all: unfold itemC1 in *; prep HC j Hj.
     all: try exact Hj.
-    all: split_ids; simp_st; use_eqs; unfold waitish, early, ret_overflow in *.
-    all: try (crush_match; simp_st; intuition (try lia; try congruence); fail).
-    Show.
-Admitted.
+    all: fin.
+Qed.
+
+(* C2: a token is sent to w.done at most once (its capacity is 1: no sender ever blocks) *)
+Definition itemC2 (s : st) (id : nat) : Prop :=
+  let it := items s id in i_signals it <= 1 /\ (i_done it = None <-> i_signals it = 0).
+
+Lemma invC2 c : forall s, reach c s -> forall id, itemC2 s id.
+Proof.
+  apply (reach_inv' c (fun s => forall id, itemC2 s id)).
+  - intros id. unfold itemC2. cbn. intuition (try lia; try congruence).
+  - intros s l s1 Hr HC H. pose proof (invC1 c s Hr) as HC1.
+    destruct l; step_cases H; unfold stopping in *; simp_st.
+    all: unfold itemC2, itemC1 in *; intros j; pose proof (HC j) as Hj; pose proof (HC1 j) as Hj1;
+         unfold infl in *; simp_st; use_eqs; rewrite ?cnt_app, ?cnt_cons, ?cnt_nil in *; simp_st; cbn [hw hr] in *.
+    all: try exact Hj.
+    all: fin.
+Qed.
+
+(* C3: what is still queued for writing, what has not been queued yet, and what got ErrPipelineOverflow was never passed to req.Write *)
+Definition itemC3 (s : st) (id : nat) : Prop :=
+  let it := items s id in
+  ((1 <= cnt (chW s) id)%nat -> i_sent it = false) /\
+  (early (i_pc it) -> i_sent it = false) /\
+  ((i_done it = Some ROverflow \/ ret_overflow (i_pc it)) -> i_sent it = false).
+
+Lemma invC3 c : forall s, reach c s -> forall id, itemC3 s id.
+Proof.
+  apply (reach_inv' c (fun s => forall id, itemC3 s id)).
+  - intros id. unfold itemC3. cbn. intuition (try lia; try congruence).
+  - intros s l s1 Hr HC H. pose proof (invC1 c s Hr) as HC1.
+    destruct l; step_cases H; unfold stopping in *; simp_st.
+    all: unfold itemC3, itemC1 in *; intros j; pose proof (HC j) as Hj; pose proof (HC1 j) as Hj1;
+         unfold infl in *; simp_st; use_eqs; rewrite ?cnt_app, ?cnt_cons, ?cnt_nil in *; simp_st; cbn [hw hr] in *.
+    all: try exact Hj.
+    all: fin.
+Qed.
+
